@@ -491,8 +491,14 @@ fn show_io_err(e: &io::Error) -> String {
 fn name_oracle(host: &str, be: &str, pki: &Pki) -> String {
     let mut out = Vec::new();
     for cand in prefixes(host) {
-        let ok = if be == "r" {
+        let ok = if be == "r" || be == "r22" {
             rustls_pki_types::ServerName::try_from(cand).is_ok()
+        } else if be == "r21" {
+            rustls_021::ServerName::try_from(cand).is_ok()
+        } else if be == "r20" {
+            rustls_020::ServerName::try_from(cand).is_ok()
+        } else if be == "n" {
+            true // native-tls has no separate name step: a name it rejects fails the handshake
         } else {
             let c = openssl_connector(pki);
             let cand = cand.to_string();
@@ -579,20 +585,34 @@ where
     IO: actix_rt::net::ActixStream + 'static,
 {
     let host = conn.request().clone();
-    if be == "r" {
-        let svc = actix_tls::connect::rustls_0_23::TlsConnector::service(rustls_client_config(pki));
-        let fut = match std::panic::catch_unwind(std::panic::AssertUnwindSafe(|| svc.call(conn))) {
-            Ok(f) => f,
-            Err(_) => return "PANIC".into(),
-        };
-        match fut.await {
-            Ok(c) => {
-                let same = (c.request() == &host) as u8;
-                let (io, _) = c.into_parts();
-                format!("OK req={} echo={}", same, echo_check(io, payload).await as u8)
+    // every TLS connector service of actix-tls behind one face
+    macro_rules! run {
+        ($svc:expr) => {{
+            let svc = $svc;
+            let fut = match std::panic::catch_unwind(std::panic::AssertUnwindSafe(|| svc.call(conn))) {
+                Ok(f) => f,
+                Err(_) => return "PANIC".into(),
+            };
+            match fut.await {
+                Ok(c) => {
+                    let same = (c.request() == &host) as u8;
+                    let (io, _) = c.into_parts();
+                    format!("OK req={} echo={}", same, echo_check(io, payload).await as u8)
+                }
+                Err(e) => show_io_err(&e),
             }
-            Err(e) => show_io_err(&e),
-        }
+        }};
+    }
+    if be == "r" {
+        run!(actix_tls::connect::rustls_0_23::TlsConnector::service(rustls_client_config(pki)))
+    } else if be == "r22" {
+        run!(actix_tls::connect::rustls_0_22::TlsConnector::service(rustls22_client_config(pki)))
+    } else if be == "r21" {
+        run!(actix_tls::connect::rustls_0_21::TlsConnector::service(rustls21_client_config(pki)))
+    } else if be == "r20" {
+        run!(actix_tls::connect::rustls_0_20::TlsConnector::service(rustls20_client_config(pki)))
+    } else if be == "n" {
+        run!(actix_tls::connect::native_tls::TlsConnector::new(native_connector(pki)))
     } else {
         let svc = actix_tls::connect::openssl::TlsConnector::service(openssl_connector(pki));
         let fut = match std::panic::catch_unwind(std::panic::AssertUnwindSafe(|| svc.call(conn))) {
